@@ -514,9 +514,9 @@ theorem rac_roundtrip_resources : rac_roundtrip_resources_statement := by
 `Saver.WrapResource(raw)` (possibly followed by unrelated bytes; TTag 0xFF, empty tertiary) is `refine(raw)` —
 the length prefix, the reserved bits and the CRC-32 check all pass — for any `refine`. -/
 theorem racdict_load_inverts_wrap (refine : Bytes → Bytes) (raw wrapped : Bytes)
-    (h : Dict.wrapResource refine raw = .ok wrapped) (extra : Bytes) :
-    Dict.load (wrapped ++ extra) false 0xFF = .ok (refine raw) :=
-  Dict.load_wrapResource refine raw wrapped h extra
+    (h : DictW.wrapResource refine raw = .ok wrapped) (extra : Bytes) :
+    DictW.load (wrapped ++ extra) false 0xFF = .ok (refine raw) :=
+  DictW.load_wrapResource refine raw wrapped h extra
 
 /-- `racdict_dictionaries_agree`: whatever the codec's own `compress` and `refine` are, if `Saver.Compress`
 succeeds then either it names no resource and returns `compress(p, q, nil)`, or it names `resourcesData[j]`,
@@ -524,33 +524,33 @@ returns `compress(p, q, refine(resourcesData[j]))`, and `Loader.Load` on what `S
 that resource returns exactly `refine(resourcesData[j])`: the compressor and the decompressor are given the
 same dictionary.  (The seeded change C13-m1 — compress against the raw resource — makes the Go code disagree
 with this model on the `dictsel` ops.) -/
-theorem racdict_dictionaries_agree (compress : Bytes → Bytes → Bytes → Except Dict.DErr Bytes)
+theorem racdict_dictionaries_agree (compress : Bytes → Bytes → Bytes → Except DictW.DErr Bytes)
     (refine : Bytes → Bytes) (p q : Bytes) (rs : List Bytes) (out : Bytes) (sec : Int)
-    (h : Dict.saverCompress compress refine p q rs = .ok (out, sec)) :
+    (h : DictW.saverCompress compress refine p q rs = .ok (out, sec)) :
     (sec = -1 ∧ compress p q [] = .ok out) ∨
     (∃ j, j < rs.length ∧ sec = (j : Int) ∧ compress p q (refine (rs.getD j [])) = .ok out ∧
-      ∃ wrapped, Dict.wrapResource refine (rs.getD j []) = .ok wrapped ∧
-        ∀ extra, Dict.load (wrapped ++ extra) false 0xFF = .ok (refine (rs.getD j []))) :=
-  Dict.saverCompress_spec compress refine p q rs out sec h
+      ∃ wrapped, DictW.wrapResource refine (rs.getD j []) = .ok wrapped ∧
+        ∀ extra, DictW.load (wrapped ++ extra) false 0xFF = .ok (refine (rs.getD j []))) :=
+  DictW.saverCompress_spec compress refine p q rs out sec h
 
 /-- raczlib's `refine` keeps a suffix of at most 32 KiB -/
 theorem zlib_refine_window (b : Bytes) :
-    (Dict.refineZlib b).length = min b.length 32768 ∧ ∃ pre, b = pre ++ Dict.refineZlib b :=
-  ⟨Dict.refineZlib_length b, Dict.lastN_suffix 32768 b⟩
+    (DictW.refineZlib b).length = min b.length 32768 ∧ ∃ pre, b = pre ++ DictW.refineZlib b :=
+  ⟨DictW.refineZlib_length b, DictW.lastN_suffix 32768 b⟩
 
 /-- `racdict_codec_contract`: every CodecWriter/CodecReader pair built on `racdict` the way raczlib and raczstd
 are (`Saver.Compress` around the codec's `compress(p, q, dict)`, `Saver.WrapResource`; `Loader.Load` then the
 codec's decompressor with that dictionary) meets `CodecContractR`, and its reader side tolerates trailing bytes,
 provided the codec's own compressor and decompressor agree when given the same dictionary (`H1`) and the
 decompressor ignores bytes after its stream (`H2`).  So `rac_roundtrip_resources` applies to them. -/
-theorem racdict_codec_contract (codec : Nat) (compress : Bytes → Bytes → Bytes → Except Dict.DErr Bytes)
+theorem racdict_codec_contract (codec : Nat) (compress : Bytes → Bytes → Bytes → Except DictW.DErr Bytes)
     (refine : Bytes → Bytes) (decompress : Bytes → Bytes → Option Bytes)
     (H1 : ∀ p q dict out, compress p q dict = .ok out → decompress out dict = some (p ++ q))
     (H2 : ∀ a b dict d, decompress a dict = some d → decompress (a ++ b) dict = some d) :
-    CodecContractR (Dict.dictCodecW codec compress refine) (Dict.dictDR decompress) ∧
-    (∀ a b s s' t t' d, Dict.dictDR decompress a s t = some d → (s = [] → s' = []) → (t = [] → t' = []) →
-      Dict.dictDR decompress (a ++ b) (s ++ s') (t ++ t') = some d) :=
-  ⟨Dict.racdict_codec_contract codec compress refine decompress H1, Dict.dictDR_ext decompress H2⟩
+    CodecContractR (DictW.dictCodecW codec compress refine) (DictW.dictDR decompress) ∧
+    (∀ a b s s' t t' d, DictW.dictDR decompress a s t = some d → (s = [] → s' = []) → (t = [] → t' = []) →
+      DictW.dictDR decompress (a ++ b) (s ++ s') (t ++ t') = some d) :=
+  ⟨DictW.racdict_codec_contract codec compress refine decompress H1, DictW.dictDR_ext decompress H2⟩
 
 /-- non-vacuity: the hypotheses of `rac_roundtrip_resources` are jointly satisfiable — by a codec on top of the
 `racdict` model (raczlib's `refine`; toy compressor that drops a dictionary prefix) … -/
@@ -559,8 +559,8 @@ theorem roundtrip_resources_hyps_satisfiable :
       (∀ a b s s' t t' d, DR a s t = some d → (s = [] → s' = []) → (t = [] → t' = []) →
         DR (a ++ b) (s ++ s') (t ++ t') = some d) ∧
       (∀ a b rs out, cw.compress a b rs = .ok out → out.codec ≠ 0 ∧ out.codec ≠ 2 ^ 63) :=
-  ⟨Dict.toyDictCodecW, Dict.dictDR Dict.tdecompress, Dict.toyDict_contract, Dict.dictDR_ext _ Dict.toy_H2,
-    Dict.toyDict_notZeroes⟩
+  ⟨DictW.toyDictCodecW, DictW.dictDR DictW.tdecompress, DictW.toyDict_contract, DictW.dictDR_ext _ DictW.toy_H2,
+    DictW.toyDict_notZeroes⟩
 
 set_option maxRecDepth 1000000 in
 /-- … with which a session whose single 128-byte chunk starts with the 120-byte resource closes with nil and
@@ -569,7 +569,7 @@ baseline 258 bytes against 18) … -/
 example :
     let R : Bytes := List.replicate 120 7
     let w0 : Writer := { dChunkSizeCfg := 128, resourcesData := [R] }
-    let r := (Writer.runWrites Dict.toyDictCodecW w0 [R ++ [1, 2, 3, 4, 5, 6, 7, 8]]).Close Dict.toyDictCodecW
+    let r := (Writer.runWrites DictW.toyDictCodecW w0 [R ++ [1, 2, 3, 4, 5, 6, 7, 8]]).Close DictW.toyDictCodecW
     (r.2.isNone && (r.1.chunkWriter.log.map (·.secondary) == [1])) = true := by
   decide +kernel
 
@@ -579,11 +579,11 @@ file validates and decodes, through the dictionary stored in it, to the 128 writ
 example :
     let R : Bytes := List.replicate 120 7
     let w0 : Writer := { dChunkSizeCfg := 128, resourcesData := [R] }
-    let r := (Writer.runWrites Dict.toyDictCodecW w0 [R ++ [1, 2, 3, 4, 5, 6, 7, 8]]).Close Dict.toyDictCodecW
+    let r := (Writer.runWrites DictW.toyDictCodecW w0 [R ++ [1, 2, 3, 4, 5, 6, 7, 8]]).Close DictW.toyDictCodecW
     Spec.validate (fileOf r.1) = true ∧
-    Spec.decode (fileOf r.1) (fun _ p s t => Dict.dictDR Dict.tdecompress p s t) = .ok (R ++ [1, 2, 3, 4, 5, 6, 7, 8]) := by
-  have h := rac_roundtrip_resources Dict.toyDictCodecW (Dict.dictDR Dict.tdecompress) Dict.toyDict_contract
-    (Dict.dictDR_ext _ Dict.toy_H2) Dict.toyDict_notZeroes
+    Spec.decode (fileOf r.1) (fun _ p s t => DictW.dictDR DictW.tdecompress p s t) = .ok (R ++ [1, 2, 3, 4, 5, 6, 7, 8]) := by
+  have h := rac_roundtrip_resources DictW.toyDictCodecW (DictW.dictDR DictW.tdecompress) DictW.toyDict_contract
+    (DictW.dictDR_ext _ DictW.toy_H2) DictW.toyDict_notZeroes
     { dChunkSizeCfg := 128, resourcesData := [List.replicate 120 7] } ⟨rfl, rfl, rfl, rfl, rfl⟩
     [List.replicate 120 7 ++ [1, 2, 3, 4, 5, 6, 7, 8]] (by decide +kernel)
   simpa using h
